@@ -1,6 +1,7 @@
 package harness
 
 import (
+	"io"
 	"bytes"
 	"context"
 	"fmt"
@@ -126,6 +127,7 @@ func RunConv(c ConvCase) *Sx {
 	s.EnableDSN = c.Cfg.DSN
 	if c.Cfg.Timeouts {
 		s.ReadTimeout, s.WriteTimeout = time.Hour, time.Hour
+		s.Debug = io.Discard // a debug transcript is being written as well
 	}
 	s.EnableRRVS = c.Cfg.RRVS
 
